@@ -177,7 +177,7 @@ impl Fresh {
     }
 }
 
-const NFORMS: usize = 17;
+const NFORMS: usize = 20;
 
 /// build the nest described by `forms` (one form index per level)
 fn nest(forms: &[usize], sc: &Scope, fr: &Fresh, leaf_break: Option<&'static str>) -> Option<T> {
@@ -238,6 +238,23 @@ fn nest(forms: &[usize], sc: &Scope, fr: &Fresh, leaf_break: Option<&'static str
             let d1 = DefD { name: "g".into(), args: vec![], body: arr(fr.n()) };
             let d2 = DefD { name: "f".into(), args: vec![], body: arr(comma(fr.n(), call0("g"))) };
             T::Def(vec![d1, d2], b(go(&sc.fun("g").fun("f"))?))
+        }
+        17 => {
+            // a computed pattern key that refers to an outer variable, after an earlier binder of the same pattern
+            let src = T::Obj(vec![(strlit("b"), Some(fr.n())), (strlit("c"), Some(T::Obj(vec![(strlit("a"), Some(fr.n()))])))]);
+            let pat = Pat::Obj(vec![(strlit("b"), pv("$x")), (strlit("c"), Pat::Obj(vec![(var("$y"), pv("$y"))]))]);
+            as_(strlit("a"), pv("$y"), as_(src, pat, go(&sc.var("$x").var("$y"))?))
+        }
+        18 => {
+            let src = arr(comma(fr.n(), T::Obj(vec![(strlit("a"), Some(fr.n()))])));
+            let pat = Pat::Arr(vec![pv("$y"), Pat::Obj(vec![(var("$x"), pv("$x"))])]);
+            as_(strlit("a"), pv("$x"), as_(src, pat, go(&sc.var("$x").var("$y"))?))
+        }
+        19 => {
+            // pattern key computed from the matched value and an outer variable, under a label
+            let src = T::Obj(vec![(strlit("k"), Some(strlit("a"))), (strlit("a"), Some(fr.n()))]);
+            let pat = Pat::Obj(vec![(strlit("k"), pv("$y")), (idx(T::Id, strlit("k")), pv("$x"))]);
+            T::Label("$x".into(), b(as_(src, pat, go(&sc.label("$x").var("$x").var("$y"))?)))
         }
         _ => unreachable!(),
     })
@@ -643,9 +660,122 @@ fn fam_path_effect(run: &Run) -> Stats {
     st
 }
 
+// ------------------------------------------------------------------ F-rec: recursive definition nests
+
+/// contexts placed around a recursive call (R = the call)
+const REC_WRAPPERS: &[&str] = &[
+    "R",
+    "try R catch \"caught\"",
+    "(R)?",
+    "label $l | R",
+    "label $l | (R, break $l, 6)",
+    "first(R)",
+    "[R]",
+    "(R, 9)",
+    "(8, R)",
+    "R as $v | [$v]",
+    "limit(2; R)",
+    "(R | .)",
+    "if true then R else 0 end",
+    "(R // 7)",
+    "(null // R)",
+    "reduce R as $v (0; . + 1)",
+    "foreach (1, 2) as $v (0; . + $v; R)",
+    "def h: R; h",
+    "def h(k): k; h(R)",
+    "(tick(1) | R)",
+    "isempty(R)",
+    "{a: R}",
+    "\"s\\(R)\"",
+    "path(R)?",
+    "(R | tick(2))",
+];
+
+/// base cases
+const REC_BASES: &[&str] = &[".", "error(\"boom\")", "empty", "(., .)", "[.]", "error", "break $out"];
+
+/// recursion shapes: W1/W2 = wrapped recursive calls, X = base case
+const REC_SHAPES: &[&str] = &[
+    "def f: if . >= 2 then X else (. + 1 | W1(f)) end; 0 | f",
+    "def f: def g: W1(f); if . >= 2 then X else (. + 1 | g) end; 0 | f",
+    "def f: def g: if . >= 2 then X else (. + 1 | W1(g)) end; W2(g); 0 | f",
+    "def f: if . >= 2 then X else (. + 1 | W1(f)) end; def g: W2(f); 0 | g",
+    "def f($n): if $n >= 2 then X else W1(f($n + 1)) end; f(0)",
+    "def f(h): if . >= 2 then X else (h | W1(f(h))) end; 0 | f(. + 1)",
+    "def f(h): if . >= 2 then X else W1(h) end; def g: . + 1 | W2(f(g)); 0 | g",
+    "def f: def g: def h: W1(f); . + 1 | h; if . >= 2 then X else W2(g) end; 0 | f",
+    "def f: if . >= 2 then X else (. + 1 | W1(f)), (. + 2 | W2(f)) end; 0 | f",
+    "def f($a; g): if $a >= 2 then X else W1(f($a + 1; g | W2(.))) end; f(0; .)",
+];
+
+fn fam_rec(run: &Run, quick: bool) -> Stats {
+    let mut progs: Vec<String> = vec![];
+    let wr = |w: &str, call: &str| w.replace('R', call);
+    for shape in REC_SHAPES {
+        for x in REC_BASES {
+            let two = shape.contains("W2(");
+            for (i1, w1) in REC_WRAPPERS.iter().enumerate() {
+                let w2s: Vec<&str> = if !two {
+                    vec!["R"]
+                } else if quick {
+                    // quick: the second wrapper ranges over a third of the list, rotating with the first
+                    REC_WRAPPERS.iter().enumerate().filter(|(i2, _)| (i1 + i2) % 3 == 0).map(|(_, w)| *w).collect()
+                } else {
+                    REC_WRAPPERS.to_vec()
+                };
+                for w2 in w2s {
+                    // substitute the wrappers around the recursive calls
+                    let mut s = shape.replace("X", x);
+                    for (tag, w) in [("W1(", w1), ("W2(", &w2)] {
+                        while let Some(p) = s.find(tag) {
+                            // find the matching parenthesis
+                            let start = p + tag.len();
+                            let mut depth = 1;
+                            let mut end = start;
+                            for (j, c) in s[start..].char_indices() {
+                                match c {
+                                    '(' => depth += 1,
+                                    ')' => {
+                                        depth -= 1;
+                                        if depth == 0 {
+                                            end = start + j;
+                                            break;
+                                        }
+                                    }
+                                    _ => {}
+                                }
+                            }
+                            let call = s[start..end].to_string();
+                            s = format!("{}({}){}", &s[..p], wr(w, &call), &s[end + 1..]);
+                        }
+                    }
+                    progs.push(format!("label $out | {s}"));
+                }
+            }
+        }
+    }
+    progs.sort();
+    progs.dedup();
+    let inputs = [RVal::Null];
+    progs
+        .par_iter()
+        .fold(Stats::default, |mut st, p| {
+            match rt::parse_with_jaq(p) {
+                Some(t) => check_program(run, &mut st, "F-rec", &renumber_ticks(&t), &inputs, &[], 24),
+                None => run.violation(&format!("F-rec: {p} (parse)"), json!({"program": p, "what": "well-formed program rejected by the parser"})),
+            }
+            st
+        })
+        .reduce(Stats::default, Stats::merge)
+}
+
 pub fn main(tier: Tier) -> ! {
     jq::quiet_panics();
     let run = Run::new("C01", "model_checking", tier);
+    let st = fam_rec(&run, run.quick());
+    run.family("F-rec", st.json());
+    run.bound_done("F-rec: 10 recursion shapes x 7 base cases x 25 wrappers around each recursive call");
+    run.add(st.c);
     let inputs = std_inputs();
     let stream: Vec<RVal> = vec![rv::int(5), rv::int(6), rv::int(7)];
 
